@@ -17,18 +17,16 @@ class BuildFailed(Exception):
 
 
 def ucg_binary():
-    """cargo build --offline in the repo; returns the path of target/debug/ucg."""
+    """The real `ucg` CLI, built from the repo inside the driver's workspace (one shared target dir)."""
     if 'ucg' in _built:
         return _built['ucg']
-    tdir = os.path.join(REPO, 'target')
-    env = dict(ENV)
-    if not os.access(REPO, os.W_OK):
-        tdir = os.path.join(CACHE, 'repo_target')
-    env['CARGO_TARGET_DIR'] = tdir
-    p = subprocess.run(['cargo', 'build', '--offline', '--bin', 'ucg'], cwd=REPO, env=env, capture_output=True, text=True, timeout=1800)
+    driver_binary()
+    work = os.path.join(CACHE, 'driver')
+    env = dict(ENV, CARGO_TARGET_DIR=os.path.join(CACHE, 'driver_target'))
+    p = subprocess.run(['cargo', 'build', '--offline', '-p', 'ucg', '--bin', 'ucg'], cwd=work, env=env, capture_output=True, text=True, timeout=3600)
     if p.returncode != 0:
         raise BuildFailed('cargo build of ucg failed:\n' + p.stderr[-2000:])
-    _built['ucg'] = os.path.join(tdir, 'debug', 'ucg')
+    _built['ucg'] = os.path.join(CACHE, 'driver_target', 'debug', 'ucg')
     return _built['ucg']
 
 
